@@ -258,6 +258,22 @@ CLAIMED["C17"] = dict(
          "is left open. The float dimension is sampled (dense grid), not exhaustive.",
     technique="TLC state machine with history replay into every constrained parameter found by introspection; float-grid contract sweep; mpmath densities at TLC-chosen rational points")
 
+CLAIMED["C09"] = dict(
+    category="model_checking",
+    text="Structured.tla: TLC checks over complete small domains that the Kronecker multitask layout, the index/Hadamard lookup, the LCM sum and the grid kernel "
+         "(Toeplitz per dimension, ragged padding, Kronecker order against create_data_from_grid and against the interpolation indices) equal their dense "
+         "formulas. Interp.tla transcribes Interpolation.interpolate exactly over rationals: weights sum to one, exact at nodes, reproduce polynomials up to degree "
+         "2 in the interior, indices in range, 2-D = tensor product, on every step-1/4 lattice target of 1-D and 2-D grids. On exact rational instances TLC proves "
+         "that the code-shaped Nystrom root, the SGPR Woodbury cache, Titsias' predictive equations, the collapsed-bound pieces, the RFF feature-space cache and the "
+         "WISKI fantasy caches equal the dense Gaussian conditional. Every TLC case is replayed into the real kernels, interpolate() and SGPR models against TLC's "
+         "exact values; seeded float64 sweeps compare every structured kernel with its dense formula and every kernel-specific prediction strategy with "
+         "DefaultPredictionStrategy forced onto the same approximate matrix (Cholesky/CG, fast_pred_var, sgpr_diagonal_correction, use_toeplitz, WISKI fantasies); "
+         "the SGPR objective is compared with the collapsed bound.",
+    design_ref="DESIGN.md section 6 (C09)",
+    note="'Converges to the base kernel as the grid is refined' is not decided (a 3-size error table only). fast_pred_samples: shape only. CG cells at 5e-4 (linear_cg "
+         "freezes columns at residual 1e-10). Grids float64 and equally spaced; strategies created under lazy kernel evaluation; fantasy parameters do not require grad.",
+    technique="TLA+/TLC exact index maps and rational algebra replayed into the code; dense-twin default strategy as oracle")
+
 PENDING = "check not built yet (build in progress; see DESIGN.md section 11)"
 NOT_APPLICABLE = {}
 
